@@ -318,8 +318,10 @@ func (s *parallelSolverImpl) Solve(
 							waitGroup.Done()
 						}()
 
+						verifYield("worker_start")
 						solution := bestSolution.Copy()
 
+						verifYield("worker_pop")
 						if len(solutions) > 0 {
 							solutionsMutex.Lock()
 							if len(solutions) > 0 {
@@ -360,6 +362,7 @@ func (s *parallelSolverImpl) Solve(
 							panic(err)
 						}
 
+						verifYield("worker_budget")
 						updatedIterations := iterationsLeft.Add(int64(opt.Iterations) * -1)
 						if updatedIterations+int64(opt.Iterations) <= 0 {
 							<-ctx.Done()
@@ -368,6 +371,7 @@ func (s *parallelSolverImpl) Solve(
 						if updatedIterations < 0 {
 							opt.Iterations = int(updatedIterations + int64(opt.Iterations))
 						}
+						verifNote("worker_grant", r, opt.Iterations)
 
 						s.ParallelSolveEvents().StartSolver.Trigger(
 							metaSolveInformation,
@@ -392,6 +396,7 @@ func (s *parallelSolverImpl) Solve(
 								)
 							}
 
+							verifYield("worker_send")
 							syncResultChannel <- solutionContainer{
 								Solution:   sol,
 								Error:      sol.Error,
@@ -401,6 +406,7 @@ func (s *parallelSolverImpl) Solve(
 					}(runCount)
 				}
 			}
+			verifYield("dispatch_cycle_end")
 			if interpretedParallelSolveOptions.RunDeterministically {
 				waitGroup.Wait()
 			}
@@ -419,6 +425,7 @@ func (s *parallelSolverImpl) Solve(
 			s.ParallelSolveEvents().End.Trigger(s, iterations, bestSolution)
 		}()
 		for solverResult := range syncResultChannel {
+			verifYield("agg_recv")
 			if solverResult.Error != nil {
 				reportBestSolution(solutionContainer{
 					Solution:   nil,
@@ -429,10 +436,12 @@ func (s *parallelSolverImpl) Solve(
 				continue
 			}
 
+			verifNote("agg_score", solverResult.Solution.Score())
 			if solverResult.Solution.Score() >= bestSolution.Score() {
 				continue
 			}
 
+			verifYield("agg_update")
 			bestSolution = solverResult.Solution.Copy()
 
 			reportBestSolution(solutionContainer{
